@@ -5,6 +5,7 @@
    session.rs emit_event, tasks/mod.rs TaskEmitter::emit, continuities.rs append paths.)
    A schedule is an arbitrary interleaving list of actor ids.  No proofs here (Proofs/SubscribeProofs.v). *)
 From RipV Require Import Base.Prelude.
+Local Open Scope nat_scope.
 
 Inductive porder := PubThenRec | RecThenPub.          (* emitter: sender.send vs buffer push / sidecar append *)
 Inductive sorder := SubThenSnap | SnapThenSub.        (* handler: subscribe() vs snapshot / replay *)
@@ -116,18 +117,43 @@ Definition cfg_ok (c : cfg) : bool :=
 Definition code_cfg (cap : option nat) : cfg :=
   {| c_p := RecThenPub; c_s := SubThenSnap; c_f := FilterGtLast; c_cap := cap |}.
 
-(* a stream kind as the extractor (tools/gen/stream_order.py) reads it from the source *)
-Record kind_orders := { k_name : N; k_p : porder; k_s : sorder; k_f : lfilter }.
+(* ---------- specification vocabulary (used by Props/C06.v) ---------- *)
+Definition mk (p : porder) (s : sorder) (f : lfilter) (cap : option nat) : cfg :=
+  {| c_p := p; c_s := s; c_f := f; c_cap := cap |}.
+Definition with_cap (c : cfg) (cap : option nat) : cfg := mk (c_p c) (c_s c) (c_f c) cap.
+(* the state after running schedule `sched` on a stream of n frames with m (potential) subscribers *)
+Definition final (c : cfg) (n m : nat) (sched : list actor) : st := run c sched (init c n m).
+(* some receiver overflowed during the run (tokio: RecvError::Lagged, swallowed by the handlers) *)
+Definition any_lag (s : st) : bool := existsb s_lag (g_subs s).
+Definition NoLag (s : st) : Prop := any_lag s = false.
+(* what C06 asks for subscriber x in state fin of a stream of n frames: the client has received (once
+   it has read what is pending) exactly the frames 0..k-1, each once, ascending, where k covers at
+   least every frame published so far and is n once the producer has finished *)
+Definition ExactlyOnce (c : cfg) (n : nat) (fin : st) (x : sub) : Prop :=
+  exists k, delivered c x = seq 0 k /\ published n fin <= k /\ k <= n /\ (g_prog fin = [] -> k = n).
+(* the negation on a finished stream with one subscriber *)
+Definition Loses (c : cfg) (n : nat) (sched : list actor) : Prop :=
+  g_prog (final c n 1 sched) = [] /\
+  exists x, nth_error (g_subs (final c n 1 sched)) 0 = Some x /\ attached x = true /\ delivered c x <> seq 0 n.
+(* the emitters before the repair of S8 (session.rs emit_event, tasks/mod.rs TaskEmitter::emit) *)
+Definition unfixed_cfg : cfg := mk PubThenRec SubThenSnap FilterGtLast None.
+
+(* a stream kind as the extractor (tools/gen/stream_order.py) reads it from the source; k_cap is the
+   EVENT_CHANNEL_CAPACITY of that kind's broadcast channel *)
+Record kind_orders := { k_name : N; k_p : porder; k_s : sorder; k_f : lfilter; k_cap : N }.
 Definition kind_cfg (k : kind_orders) (cap : option nat) : cfg :=
   {| c_p := k_p k; c_s := k_s k; c_f := k_f k; c_cap := cap |}.
-Definition wf_kind (k : kind_orders) : bool := cfg_ok (kind_cfg k None).
+Definition kind_cap (k : kind_orders) : nat := N.to_nat (k_cap k).
+(* the configuration of a kind as the code runs it: bounded channel of EVENT_CHANNEL_CAPACITY frames *)
+Definition kind_code_cfg (k : kind_orders) : cfg := kind_cfg k (Some (kind_cap k)).
+Definition wf_kind (k : kind_orders) : bool := cfg_ok (kind_cfg k None) && N.ltb 0 (k_cap k).
 Definition wf_kinds (l : list kind_orders) : bool :=
-  Nat.eqb (length l) 3 && forallb wf_kind l.
+  Nat.eqb (length l) 3 && forallb wf_kind l && lN_eqb (map k_name l) [0%N; 1%N; 2%N].
 
 (* ---------- correspondence ---------- *)
 Definition enc_list (l : list nat) : list N := nlen l :: map N.of_nat l.
 Definition observe (c : cfg) (s : st) : list N :=
-  concat (map (fun x => (if attached x then 1 else 0) :: enc_list (if attached x then delivered c x else [])) (g_subs s)).
+  concat (map (fun x => (if attached x then 1%N else 0%N) :: enc_list (if attached x then delivered c x else [])) (g_subs s)).
 
 Record case := {
   c_kind : N; c_porder : porder; c_n : nat; c_subs : nat; c_sched : list actor; c_expect : list N }.
